@@ -125,6 +125,7 @@ typedef struct {
     int        is_server;
     buf_t      delivered;      /* application bytes handed to the app (concatenated) */
     int        n_deliveries;   /* number of APP_DATA events */
+    int        deliv_incomplete; /* APP_DATA events reported while matrixSslHandshakeIsComplete() was false */
     buf_t      submitted;      /* application bytes the app of THIS side submitted */
     int        complete;       /* HANDSHAKE_COMPLETE seen (or IsComplete true at delivery) */
     int        got_alert_lvl, got_alert_desc; /* last alert received */
